@@ -420,9 +420,58 @@ def _one(modkey, reply, schedule):
     }
 
 
+_PRESCREEN = {}
+_PRESCREEN_SRC = """
+import sys, json
+import ascmhl.cli.update as U
+tag = json.loads(sys.argv[1])
+class R:
+    def raise_for_status(self): pass
+    def json(self): return {"tag_name": tag}
+U.requests.get = lambda *a, **k: R()
+u = U.Updater.__new__(U.Updater)
+U.Thread.__init__(u)
+u.latest_version = None
+u.finished = False
+try:
+    u._get_latest_version()
+except Exception:
+    pass
+try:
+    u.needs_update
+except Exception:
+    pass
+"""
+
+
+def _tag_terminates(tag):
+    """the checker's own handling of this tag (parse + comparison), run in a sub-process: a tag that keeps the interpreter
+    busy for more than 20 s would starve the main thread (one interpreter lock) and freeze this worker as well"""
+    import subprocess
+
+    from .. import env
+
+    key = json.dumps(tag)
+    if key not in _PRESCREEN:
+        e = dict(os.environ, PYTHONPATH=env.REPO, PYTHONDONTWRITEBYTECODE="1")
+        try:
+            subprocess.run([env.PY, "-c", _PRESCREEN_SRC, key], env=e, stdout=subprocess.DEVNULL, stderr=subprocess.DEVNULL, timeout=20)
+            _PRESCREEN[key] = True
+        except subprocess.TimeoutExpired:
+            _PRESCREEN[key] = False
+    return _PRESCREEN[key]
+
+
 def _sched_case(cs):
     rng = cs.rng
     name, reply = rng.choice(REPLIES)
+    if name.startswith("tag:"):
+        tag = reply[1].payload.get("tag_name")
+        cs.count("tags_prescreened")
+        if not _tag_terminates(tag):
+            cs.evaluated()
+            cs.violation("update-check-stalls-command", {"kind": "stall", "behaviour": "tag-handling-cpu-bound", "seconds": 20}, {"tag": repr(tag)[:80]})
+            return
     modkey = rng.choice(["a", "b"])
     # process-wide state the command body leaves behind when the callback runs (e.g. after `create -v`)
     import ascmhl.logger as _lg
